@@ -132,13 +132,16 @@ def getitemH (j : Json) : Except String Json := do
     ("t", Json.arr (ord.flatMap fun a => ord.map fun b =>
       Json.arr #[Json.str a.name, Json.str b.name, jo (getitem2 cl n a b t)]).toArray)]
 
-/-- {"cls","n","vals":[..]} -> components or "DimensionError" -/
+/-- {"cls","n","vals":[..]} -> "DimensionError" or {"comps": the components `from_expression` stores,
+"byname": `from_expression(...)[name]` for every axis name (null = IndexError)} -/
 def fromexpr (j : Json) : Except String Json := do
   let cl ← parseCls (← fldS j "cls")
   let n ← fldN j "n"
   let vals ← fldQs j "vals"
+  let jo : Option Rat → Json := fun o => match o with | none => Json.null | some q => jQ q
   match fromExpressions cl n vals with
-  | some c => pure (jQs c)
+  | some c => pure <| Json.mkObj [("comps", jQs c),
+      ("byname", Json.mkObj (allAx.map fun a => (a.name, jo (getitem cl n a c))))]
   | none => pure (Json.str "DimensionError")
 
 def fromexpr2 (j : Json) : Except String Json := do
@@ -149,13 +152,15 @@ def fromexpr2 (j : Json) : Except String Json := do
   | some c => pure (jMat c)
   | none => pure (Json.str "DimensionError")
 
-/-- {"cls","r","z","pt":[cθ,sθ,cφ,sφ]} -> `pos_to_cart` -/
+/-- {"cls","pts":[[r,z,cθ,sθ,cφ,sφ]..]} -> `pos_to_cart` of each point -/
 def postocart (j : Json) : Except String Json := do
   let cl ← parseCls (← fldS j "cls")
-  let r ← fldQ j "r"
-  let z ← fldQ j "z"
-  let a ← getAngles (← fldQs j "pt")
-  pure (jQs (posToCart cl r z a))
+  let pts ← getMat (← fld j "pts")
+  let out ← pts.mapM fun p =>
+    match p with
+    | [r, z, ct, st, cp, sp] => pure (jQs (posToCart cl r z ⟨ct, st, cp, sp⟩))
+    | _ => throw "postocart: expected [r, z, cθ, sθ, cφ, sφ]"
+  pure (Json.arr out.toArray)
 
 def handlers : List (String × Handler) := [
   ("c19.cs", cs), ("c19.order", order), ("c19.tocart", tocart), ("c19.tocart2", tocart2),
